@@ -444,6 +444,10 @@ def main(mod, argv):
     except LeanUnavailable as e:
         ctx.lean_ok = False
         ctx.lean_problem = str(e)
+    except Exception as e:      # the harness could not drive the code under test (renamed attribute, changed signature ...)
+        import traceback
+        tb = traceback.format_exc()
+        problems.append(("harness", "driving the implementation failed: %s: %s | %s" % (type(e).__name__, e, tb.strip().split("\n")[-3:])))
     if not ctx.lean_ok and ok:
         problems.append(("driver", "Lean driver unavailable: %s" % ctx.lean_problem))
 
